@@ -51,6 +51,8 @@ pub enum Ins {
     Print { ty: u8, seed: u32 },
     /// use of `ans` / `_` after an expression
     Ans { underscore: bool },
+    /// use a Scalar -> Scalar function as a value: `let v = sum(map(f, [a, b]))`
+    MapFn { f: u16, seed: u32 },
 }
 
 pub fn ins_strategy() -> impl Strategy<Value = Ins> {
@@ -67,6 +69,7 @@ pub fn ins_strategy() -> impl Strategy<Value = Ins> {
         4 => (0u8..5, any::<u32>()).prop_map(|(ty, seed)| Ins::Expr { ty, seed }),
         3 => (0u8..5, any::<u32>()).prop_map(|(ty, seed)| Ins::Print { ty, seed }),
         1 => any::<bool>().prop_map(|underscore| Ins::Ans { underscore }),
+        1 => (any::<u16>(), any::<u32>()).prop_map(|(f, seed)| Ins::MapFn { f, seed }),
     ]
 }
 
@@ -85,6 +88,11 @@ pub struct Env {
     /// late-binding finding (not used by this generator: functions are never used as values)
     pub redefined_fn: bool,
     pub redefinitions: usize,
+    /// functions that were used as values (`map(f, …)`)
+    pub fn_values: Vec<String>,
+    /// a function that had been used as a value was redefined later: the recorded
+    /// late-binding finding (function values are looked up by name) can show
+    pub fn_value_redefined: bool,
 }
 
 impl Env {
@@ -288,6 +296,9 @@ pub fn render_ins(ins: &Ins, env: &mut Env) -> String {
             env.ans = None;
             env.redefinitions += 1;
             env.redefined_fn = true;
+            if env.fn_values.contains(&name) {
+                env.fn_value_redefined = true;
+            }
             format!("fn {name}({}) -> {} = {body}", sig.join(", "), ty_name(rty))
         }
         Ins::Unit { seed } => {
@@ -343,6 +354,27 @@ pub fn render_ins(ins: &Ins, env: &mut Env) -> String {
             let mut r = Rng(*seed as u64);
             let e = expr_inner(env, &[], ty, &mut r, 2);
             format!("print({e})")
+        }
+        Ins::MapFn { f, seed } => {
+            let fs: Vec<String> = env
+                .fns
+                .iter()
+                .filter(|f| f.1 == vec![Ty::Scalar] && f.2 == Ty::Scalar)
+                .map(|f| f.0.clone())
+                .collect();
+            if fs.is_empty() {
+                return render_ins(&Ins::Let { ty: 0, seed: *seed, annotate: false }, env);
+            }
+            let fname = fs[(*f as usize) % fs.len()].clone();
+            let mut r = Rng(*seed as u64);
+            let (a, b) = (1 + r.below(9), 1 + r.below(9));
+            let name = env.fresh("v");
+            env.vars.push((name.clone(), Ty::Scalar));
+            if !env.fn_values.contains(&fname) {
+                env.fn_values.push(fname.clone());
+            }
+            env.ans = None;
+            format!("let {name} = sum(map({fname}, [{a}, {b}]))")
         }
         Ins::Ans { underscore } => {
             if env.ans.is_some() {
